@@ -94,8 +94,13 @@ def eq(got, want):
     return got == want
 
 
+ZVALS = [None, 0, 1, 2, 3]
+
+
 def explore_mov(item):
     tier, first = item
+    if isinstance(first, tuple):
+        return explore_mov_zero(tier, first[1])
     bind_repo()
     from hexital.analysis import movement as M
     rep = Report()
@@ -163,6 +168,61 @@ def explore_mov(item):
     return rep
 
 
+def explore_mov_zero(tier, first):
+    """Readings that are legitimately 0 (and 0-valued candle attributes such as volume) are values, not missing."""
+    from hexital.analysis import movement as M
+    from hexital.core.candle import Candle
+    rep = Report()
+    n = 4
+    singles = [("rising", ref_rising), ("falling", ref_falling), ("mean_rising", ref_mean_rising), ("mean_falling", ref_mean_falling),
+               ("highest", ref_highest), ("lowest", ref_lowest), ("value_range", ref_value_range)]
+    for tail in itertools.product(ZVALS, repeat=n - 1):
+        a = (first,) + tail
+        for mode in ("reading", "volume"):
+            if mode == "volume" and any(v is None for v in a):
+                continue
+            if mode == "reading":
+                cands = [Candle(10, 12, 9, 11, 5, timestamp=BASE + timedelta(minutes=i), indicators=({} if v is None else {"A": v})) for i, v in enumerate(a)]
+                name_ = "A"
+            else:
+                cands = [Candle(10, 12, 9, 11, v, timestamp=BASE + timedelta(minutes=i)) for i, v in enumerate(a)]
+                name_ = "volume"
+            b = tuple(1 for _ in a)
+            for c in cands:
+                c.indicators["B"] = 1
+            for i in range(1, n):
+                for L in (1, 2, 3):
+                    for name, ref in singles:
+                        got = call(getattr(M, name), cands, name_, L, i)
+                        want = ref(list(a), i, L)
+                        rep.inc("executions")
+                        if got[0] != "ok" or not eq(got[1], want):
+                            rep.violation(f"C17|{name}|!=reference-zero-{mode}", {"fn": name, "A": a, "index": i, "length": L, "got": got[1], "want": want, "mode": mode})
+                    for name, pick in (("highestbar", max), ("lowestbar", min)):
+                        got = call(getattr(M, name), cands, name_, L, i)
+                        w0, w1 = ref_bar(list(a), i, L, 0, pick), ref_bar(list(a), i, L, 1, pick)
+                        rep.inc("executions")
+                        if w0 != "NA" and not (got[0] == "ok" and got[1] in (w0, w1)):
+                            rep.violation(f"C17|{name}|!=reference-zero-{mode}", {"fn": name, "A": a, "index": i, "length": L, "got": got[1], "want": w0, "mode": mode})
+                for name, ref in (("above", ref_above), ("below", ref_below)):
+                    got = call(getattr(M, name), cands, name_, "B", i)
+                    want = ref(list(a), list(b), i)
+                    rep.inc("executions")
+                    if got[0] != "ok" or not eq(got[1], want):
+                        rep.violation(f"C17|{name}|!=reference-zero-{mode}", {"fn": name, "A": a, "B": b, "index": i, "got": got[1], "want": want, "mode": mode})
+                for name, ref in (("crossover", ref_crossover), ("crossunder", ref_crossunder)):
+                    got = call(getattr(M, name), cands, name_, "B", 2, i)
+                    want = ref(list(a), list(b), i, 2)
+                    rep.inc("executions")
+                    if got[0] != "ok" or not eq(got[1], want):
+                        rep.violation(f"C17|{name}|!=reference-zero-{mode}", {"fn": name, "A": a, "B": b, "index": i, "length": 2, "got": got[1], "want": want, "mode": mode})
+        rep.add("states", ("z",) + a)
+        rep.add("nontrivial", ("movz", a))
+        rep.inc("transitions")
+    rep.sample({"family": "movement-with-zero-values", "A": a})
+    return rep
+
+
 def mk_vals(vals, shape_from):
     """Candles with readings `vals` but geometry taken from `shape_from` (so only the readings are scaled)."""
     c = mk(shape_from)
@@ -196,6 +256,20 @@ def explore_geo(item):
             if M.positive(cd) != want["positive"] or M.negative(cd) != want["negative"] or M.positive([cd]) != want["positive"] \
                     or M.negative([cd, cd], 1) != want["negative"]:
                 rep.violation("C17|geometry|movement.positive/negative", {"fn": "positive/negative", "candle": (O, H, L_, C)})
+            # geometry is a function of the candle's CURRENT prices: mutate in place (swap open/close, as a merge or a
+            # conversion would change them) and read again
+            cd.open, cd.close = C, O
+            want2 = {"realbody": abs(O - C), "shadow_upper": H - max(O, C), "shadow_lower": min(O, C) - L_, "high_low": H - L_,
+                     "positive": O > C, "negative": O < C}
+            for f, w in want2.items():
+                if getattr(cd, f) != w:
+                    rep.violation(f"C17|geometry-after-mutation|{f}", {"fn": f, "candle": (O, H, L_, C), "got": getattr(cd, f), "want": w})
+            other = Candle(O, H + k, L_, C, 2)
+            m = Candle(O, H, L_, C, 1)
+            _ = (m.realbody, m.shadow_upper, m.shadow_lower, m.high_low)
+            m.merge(other)
+            if m.high_low != (H + k) - L_ or m.shadow_upper != (H + k) - max(O, C):
+                rep.violation("C17|geometry-after-merge|high_low", {"fn": "merge", "candle": (O, H, L_, C), "got": m.high_low, "want": (H + k) - L_})
             rep.add("states", (O, H, L_, C))
             rep.add("nontrivial", ("geo", O, H, L_, C))
     rep.inc("transitions", 1)
@@ -204,7 +278,7 @@ def explore_geo(item):
 
 
 # ------------------------------------------------------------------ patterns
-HSH = {"U": (10, 12, 9, 11), "D": (11, 11, 8, 9), "J": (9, 14, 9, 13), "L": (12, 13, 6, 7)}
+HSH = {"U": (10, 12, 9, 11), "D": (11, 11, 8, 9), "J": (9, 14, 9, 13), "L": (12, 13, 6, 7), "S": (10, 10.3, 9.9, 10.1)}
 
 
 def feats(c):
@@ -288,6 +362,19 @@ def constructions(hist):
     out.append(("hammer", "counter-lower-shadow", hist + [(lo, lo + 0.2, lo, lo + 0.2)]))
     out.append(("hammer", "counter-upper-shadow", hist + [(lo, lo + 3.2, lo - 3, lo + 0.2)]))
     out.append(("hammer", "counter-not-near", hist + [(lo + 6, lo + 6.2, lo + 3, lo + 6.2)]))
+    # thresholds RELATIVE to this history's own averages (0.4x inside / 2.5x outside each documented threshold, taken over
+    # both averaging conventions): sensitive to a threshold that is averaged over the wrong number of candles
+    feats_h = [feats(c) for c in hist]
+    r10 = sum(f["rng"] for f in feats_h[-10:]) / 10
+    r5 = sum(f["rng"] for f in feats_h[-5:]) / 5
+    b10 = sum(f["body"] for f in feats_h[-10:]) / 10
+    small = min(0.05 * b10, 0.02 * r10)
+    if r5 > 0 and b10 > 0:
+        dn, df = 0.4 * 0.2 * r5, 2.5 * 0.2 * r5
+        out.append(("hammer", "rel-witness-near", hist + [(lo + dn, lo + dn + small, lo + dn - 3 * max(small, 0.01) - small, lo + dn + small)]))
+        out.append(("hammer", "rel-counter-not-near", hist + [(lo + df, lo + df + small, lo + df - 3 * max(small, 0.01) - small, lo + df + small)]))
+        out.append(("doji", "rel-witness", hist + [(x, x + 1, x - 1, x + 0.4 * 0.1 * r10)]))
+        out.append(("doji", "rel-counter", hist + [(x, x + 2.5 * 0.1 * r10 + 1, x - 1, x + 2.5 * 0.1 * r10)]))
     b = pl["bot"]
     out.append(("inv_hammer", "witness", hist + [(b - 1.2, b + 2, b - 1.2, b - 1)]))
     out.append(("inv_hammer", "counter-body", hist + [(b - 10, b + 9, b - 10, b - 1)]))
@@ -379,7 +466,7 @@ def replay(case):
 
 def main(prop, tier):
     t0 = time.time()
-    reps = pmap(explore_mov, [(tier, f) for f in VALS] if tier == "quick" else [(tier, f) for f in VALS])
+    reps = pmap(explore_mov, [(tier, f) for f in VALS] + [(tier, ("zero", f)) for f in ZVALS])
     reps += pmap(explore_geo, [0])
     if tier == "quick":
         sigma = "UDJ"
@@ -390,6 +477,8 @@ def main(prop, tier):
     reps += pmap(explore_pat, [(tier, sigma, p) for p in pre])
     if tier != "quick":  # a fourth history shape (long down candle) behind four fixed three-candle prefixes
         reps += pmap(explore_pat, [(tier, "UDJL", p) for p in ("UDJ", "LUL", "JLD", "DDL")])
+    # histories with a volatility contraction / expansion (small-range candles): 5- and 10-candle averages differ widely
+    reps += pmap(explore_pat, [(tier, "JS", p) for p in ("JJJ", "JJS", "JSJ", "JSS", "SJJ", "SJS", "SSJ", "SSS")])
     rep = merge_all(reps)
     # one admitted window convention for highestbar / lowestbar must hold on all inputs
     for name in ("highestbar", "lowestbar"):
